@@ -287,6 +287,50 @@ def run_commit_concurrent(rng, mids, kind='naction'):
     return traces, errs
 
 
+def run_commit_sequence(rng, kinds, mids, ctx):
+    """ONE StorageCommitment service object serves several requests of ONE association on ONE context, of different
+    commands (N-ACTION and N-EVENT-REPORT share the class): each must be answered as what it is.  One trace per request."""
+    service = S.sopclass.StorageCommitment()
+    ae = S.ScriptAE()
+    ae.script['commit_rsp'] = None
+    a = S.make_association(ae, 'eager')
+    traces, extras = [], []
+    for k, (kind, mid) in enumerate(zip(kinds, mids)):
+        before = len([w for w in a.dul.wire if isinstance(w, S.WireMsg)])
+        sent_before = a.dul.sent_count
+        calls_before = len(ae.calls)
+        if kind == 'naction':
+            ds = commit_dataset(rng, 2)
+            ae.script['commit_rq'] = ({'aet': 'REMOTE', 'address': 'h', 'port': 1}, [(SR, '1.2.3.9.0'), (SR, '1.2.3.9.1')], None)
+            msg = S.decode_message(S.request_bytes(0x0130, mid, COMMIT, COMMIT_INST, extra=[(cmdset.TAG_ACTION_TYPE, cmdset.us(1))]), enc(ds), ctx)
+            req = {'type': 0x0130, 'ctx': ctx, 'mid': mid, 'cls': COMMIT, 'inst': COMMIT_INST}
+        else:
+            ds = pydicom.Dataset()
+            ds.TransactionUID = '1.2.3.777.%d' % k
+            item = pydicom.Dataset()
+            item.ReferencedSOPClassUID, item.ReferencedSOPInstanceUID = SR, '1.2.3.9.%d' % k
+            ds.ReferencedSOPSequence = pydicom.Sequence([item])
+            msg = S.decode_message(S.request_bytes(0x0100, mid, COMMIT, COMMIT_INST, extra=[(cmdset.TAG_EVENT_TYPE, cmdset.us(1))]), enc(ds), ctx)
+            req = {'type': 0x0100, 'ctx': ctx, 'mid': mid, 'cls': COMMIT, 'inst': COMMIT_INST}
+        extra = {}
+        try:
+            service(a, S.ctx_def(ctx, COMMIT), msg)
+        except Exception as exc:      # noqa
+            extra['raised'] = '%s #%d of %s on one association raised %s: %s' % (kind, k + 1, kinds, type(exc).__name__, exc)
+        a.dul.drain()
+        new = [w for w in a.dul.wire if isinstance(w, S.WireMsg)][before:]
+        handler = 'commit_rq' if kind == 'naction' else 'commit_rsp'
+        if not extra and len([c for c in ae.calls[calls_before:] if c[0] == handler]) != 1:
+            extra['handler'] = '%s #%d of %s on one association: the application handler %s was not called exactly once (calls: %s)' % (
+                kind, k + 1, kinds, handler, [c[0] for c in ae.calls[calls_before:]])
+        tr = [{'ev': 'Req', 'svc': kind if kind == 'naction' else 'nevent', 'req': req}, {'ev': 'Handler', 'status': 0}]
+        tr += [{'ev': 'Rsp', 'r': w.record(), 'total': 0} for w in new]
+        tr.append({'ev': 'End', 'sent': a.dul.sent_count - sent_before, 'drained': len(new)})
+        traces.append(tr)
+        extras.append(extra)
+    return traces, extras
+
+
 def run_nevent(rng, policy, mid, ctx, outcome, n=2, shape='success'):
     """shape: which lists the report carries: 'success' (Referenced SOP Sequence only), 'failure' (Failed SOP Sequence
     only), 'mixed'."""
